@@ -20,7 +20,10 @@ import (
 
 var c16Modes = []string{"", "verify", "verify_log", "none"}
 var c16Signers = []string{"resolvable", "unknown", "wrong-signature"}
-var c16Paths = []string{"provision-crl_file", "provision-crl_url", "first-cdp-fetch-actively", "first-cdp-fetch-background", "periodic-refresh", "refresh-after-restart"}
+var c16Paths = []string{"provision-crl_file", "provision-crl_url", "first-cdp-fetch-actively", "first-cdp-fetch-background", "periodic-refresh", "refresh-after-restart",
+	// a first run under signature_validation_mode none takes the configured CRL in; the process restarts on the same
+	// work_dir with the mode of the cell (the policy of the current configuration decides, not what the disk remembers)
+	"reprovision-crl_file-after-run-under-none", "reprovision-crl_url-after-run-under-none"}
 
 type c16Cell struct {
 	Mode, Signer, Path string
@@ -136,11 +139,18 @@ func (c *c16Cast) runCell(cell c16Cell) (obs c16Obs, want []string) {
 		if cell.Disk {
 			storage = "disk"
 		}
-		cdp := !strings.HasPrefix(cell.Path, "provision-")
+		cdp := !strings.HasPrefix(cell.Path, "provision-") && !strings.HasPrefix(cell.Path, "reprovision-")
+		modeNow := cell.Mode
 		mkCfg := func() *config.CRLConfig {
-			cfg := &config.CRLConfig{WorkDir: dir, StorageType: storage, SignatureValidationMode: cell.Mode, UpdateInterval: "30m",
+			cfg := &config.CRLConfig{WorkDir: dir, StorageType: storage, SignatureValidationMode: modeNow, UpdateInterval: "30m",
 				CDPConfig: &config.CDPConfig{CRLCDPStrict: true}}
 			switch cell.Path {
+			case "reprovision-crl_file-after-run-under-none":
+				cfg.CRLFiles = []string{crlFile}
+				cfg.TrustedSignatureCertsFiles = []string{WritePEM(filesDir, "ca.pem", c.ca.Cert)}
+			case "reprovision-crl_url-after-run-under-none":
+				cfg.CRLUrls = []string{c16URL}
+				cfg.TrustedSignatureCertsFiles = []string{WritePEM(filesDir, "ca.pem", c.ca.Cert)}
 			case "provision-crl_file":
 				cfg.CRLFiles = []string{crlFile}
 				cfg.TrustedSignatureCertsFiles = []string{WritePEM(filesDir, "ca.pem", c.ca.Cert)}
@@ -182,6 +192,34 @@ func (c *c16Cast) runCell(cell c16Cell) (obs c16Obs, want []string) {
 		expect := func() { want = append(want, fmt.Sprintf("v%d", inForce)) }
 		look := func() { obs.Probes = append(obs.Probes, c.observe(w, cdp)) }
 		switch cell.Path {
+		case "reprovision-crl_file-after-run-under-none", "reprovision-crl_url-after-run-under-none":
+			modeNow = "none"
+			publish(cell.Signer, 1)
+			if err := start(); err != nil {
+				obs.ProvisionErr = "first run under none: " + err.Error()
+				want = append(want, "provision-must-succeed")
+				return
+			}
+			look()
+			inForce = 1
+			expect()
+			publish(cell.Signer, 2)
+			modeNow = cell.Mode
+			if err := restart(); err != nil {
+				obs.ProvisionErr = err.Error()
+				if accept(cell.Signer) {
+					want = append(want, "provision-must-succeed")
+				}
+				return
+			}
+			inForce = 0
+			if accept(cell.Signer) {
+				inForce = 2
+			}
+			look()
+			expect()
+			w.Cleanup()
+			return
 		case "provision-crl_file", "provision-crl_url":
 			publish(cell.Signer, 1)
 			if err := start(); err != nil {
